@@ -13,6 +13,8 @@ SEEDS = {
  'C07a': ('C07', 'back chain_row: bit test replaced by equality tests again', 'two-region submachine, one region takes while the sibling guard-rejects, outer row on the same event'),
  'C08a': ('C08', 'ShallowHistoryImpl::history_exit: store guarded by a comparison against the wrong array', 'three entries of the submachine, region back in its initial state at the second exit'),
  'C09a': ('C09', 'back is_exit_state_active: scans nr_regions of the OUTER machine', 'exit point in the 2nd/3rd region of a submachine whose outer machine has fewer regions'),
+ 'C08b': ('C08', 'backmp11 history_impl<shallow_history>: the memory array is value-initialised instead of starting at the initial state ids (same idea as C03a, found independently)', 'first-ever entry through an event of the history list with a region whose initial state is not id 0'),
+ 'C09b': ('C09', 'backmp11 on_explicit_entry: untargeted regions are set to the initial state ids instead of asking the history policy', 'explicit entry / entry point / partial fork into a multi-region submachine with (always_)shallow_history after a previous visit'),
  'C10a': ('C10', 'backmp11 process_event_internal: the event pool is drained only after a direct call', 'completion-source state inside a submachine reached by a forwarded event'),
  'C11a': ('C11', 'backmp11 process_event_internal: blocking test moved after the event-pool block', 'interrupt state active while another region defers the event / event raised by the end-interrupt action'),
  'C12a': ('C12', 'backmp11: result pre-initialised and OR-ed through a reference, handler assignment dropped', 'exception in a region dispatched after a region that already handled the event'),
